@@ -122,12 +122,12 @@ def build(ctx):
             pb = pbf(T_, api_, gg_, R_)
             for pp in (pb, np.nextafter(pb, 0), np.nextafter(pb, 1e9)):
                 d = df(T_, pp, api_, gg_, R_)
-                left = rsf(T_, pp, api_, gg_, R_)
-                right = rsf(T_, pp * (1 + 1e-7), api_, gg_, R_)
-                true_d = (right - left) / (pp * 1e-7)
+                # one-sided difference on the side the point belongs to: at and above p_b to the right (slope 0), below p_b to the left
+                h = pp * 1e-7 * (1.0 if pp >= pb else -1.0)
+                true_d = (rsf(T_, pp + h, api_, gg_, R_) - rsf(T_, pp, api_, gg_, R_)) / h
                 if abs(d - true_d) > 1e-3 * max(1.0, abs(true_d)) + 1e-9:
                     return {"reproduced": True, "input": {"T": T_, "p": float(pp), "api": api_, "gg": gg_, "R": R_, "p_b": float(pb)},
-                            "observed": float(d), "required": float(true_d), "note": "right-hand derivative of the parent at the branch point"}
+                            "observed": float(d), "required": float(true_d), "note": "one-sided derivative of the parent at the branch point (right at and above p_b, left below)"}
         return {"reproduced": False}
 
     obs.append(Obligation("oil.drs_dp.branch", "parent and derivative switch branch on the same condition p >= p_b (derivative is 0 exactly where the parent is constant)", drs_branch, fs, "SMT", branch_replay))
@@ -195,6 +195,35 @@ def build(ctx):
 
     obs.append(cas_ob(ctx, "oil.co_below", "p < p_b: oil_compressibility_Standing == (B_g - dBo/dR(Rs(p))) * dRs/dp / B_ob(R_si), with the library's own B_g, dRs/dp and dBo/dR",
                       co_below, CO_BOX, cofs, co_below_real, tol=1e-9, hyp_real=co_below_hyp))
+
+    # the same with the standard conditions OMITTED on both sides: "the library's own gas formation volume factor" called the
+    # way the caller calls the compressibility (defaults of two functions in two modules that must agree)
+    co_args_d = [T, p, api, gg, R, Tpc, Ppc]
+
+    def co_below_defaults():
+        pb = pb_term(ctx)
+        c = tm.ge(p, pb)
+        o = pick(paths(ctx, OIL + "oil_compressibility_Standing", co_args_d), c, False)
+        bg = one_path(ctx, GAS + "b_factor_DAK", [T, p, Tpc, Ppc])
+        rs = pick(paths(ctx, OIL + "solution_gor_Standing", [T, p, api, gg, R]), c, False)
+        drs = pick(paths(ctx, OIL + "dgor_dpressure_Standing", [T, p, api, gg, R]), c, False)
+        dbo_ = one_path(ctx, OIL + "db_o_dgor_Standing", [T, api, gg, rs.value])
+        bob = one_path(ctx, OIL + "b_o_bubblepoint_Standing", [T, api, gg, R])
+        spec = tm.div(tm.mul(tm.sub(bg.value, dbo_.value), drs.value), bob.value)
+        return o.value, spec, tm.lt(p, pb), o, bg, rs, drs, dbo_, bob
+
+    def co_below_defaults_real(pt):
+        f = real(OIL + "oil_compressibility_Standing")
+        a = (pt["T"], pt["p"], pt["api"], pt["gg"], pt["R"])
+        bg = real(GAS + "b_factor_DAK")(pt["T"], pt["p"], pt["Tpc"], pt["Ppc"])
+        rs = real(OIL + "solution_gor_Standing")(*a)
+        drs = real(OIL + "dgor_dpressure_Standing")(*a)
+        dbo_ = real(OIL + "db_o_dgor_Standing")(pt["T"], pt["api"], pt["gg"], rs)
+        bob = real(OIL + "b_o_bubblepoint_Standing")(pt["T"], pt["api"], pt["gg"], pt["R"])
+        return f(*a, pt["Tpc"], pt["Ppc"]), (bg - dbo_) * drs / bob
+
+    obs.append(cas_ob(ctx, "oil.co_below.defaults", "p < p_b, standard conditions omitted: oil_compressibility_Standing(T, p, ..., T_pc, p_pc) == (B_g - dBo/dR) * dRs/dp / B_ob with B_g = b_factor_DAK(T, p, T_pc, p_pc) (each function's own defaults)",
+                      co_below_defaults, {k_: v_ for k_, v_ in CO_BOX.items() if k_ not in ("Tstd", "pstd")}, cofs, co_below_defaults_real, tol=1e-9, hyp_real=co_below_hyp))
 
     def co_branch():
         pb, c, outs = co_paths()
